@@ -128,6 +128,20 @@ def PlainId (n : Name) : Prop :=
   (Tok.id n).kw "not" = false ∧ (Tok.id n).kw "sprite" = false ∧ (Tok.id n).kw "the" = false ∧ (Tok.id n).kw "field" = false
     ∧ chunkOfSingular n = none
 
+/-- `env` classifies the identifier `n` as a variable of kind `k` (decidable form of `env.resolve n = .var k n`) -/
+def resolvesTo (env : Env) (n : Name) (k : VarKind) : Bool :=
+  match env.resolve n with
+  | .var k' n' => decide (k' = k) && decide (n' = n)
+  | _ => false
+
+theorem resolve_of_resolvesTo (env : Env) (n : Name) (k : VarKind) (h : resolvesTo env n k = true) : env.resolve n = .var k n := by
+  unfold resolvesTo at h
+  split at h
+  · rename_i k' n' heq
+    simp at h
+    rw [heq, h.1, h.2]
+  · cases h
+
 mutual
 /-- the fragment of the round-trip theorem: literals, symbols, variables (classified by `env` as the tree says), unary and infix
     operators, `field`, function calls -/
@@ -136,7 +150,7 @@ def Frag (env : Env) : Expr → Prop
   | .str _ => True
   | .float _ _ => True
   | .sym _ => True
-  | .var k n => PlainId n ∧ env.resolve n = .var k n
+  | .var k n => PlainId n ∧ resolvesTo env n k = true
   | .un _ a => Frag env a
   | .bin op a b => op.isInfix = true ∧ Frag env a ∧ Frag env b
   | .field a => Frag env a
@@ -278,8 +292,8 @@ theorem rp_e5 : ∀ (e : Expr), Frag env e → ∀ (rest : List Tok), NoLp rest 
     simp [prE, pE5, pSimple, kw_p]
   | .var k n, h, rest, hn, F, hF => by
     obtain ⟨f, rfl⟩ : ∃ f, F = f + 2 := ⟨F - 2, by simp [fuelOf] at hF; omega⟩
-    obtain ⟨hp, hr⟩ : PlainId n ∧ env.resolve n = .var k n := h
-    simpa [prE] using pE5_var env f k n rest hp hr hn
+    obtain ⟨hp, hr⟩ : PlainId n ∧ resolvesTo env n k = true := h
+    simpa [prE] using pE5_var env f k n rest hp (resolve_of_resolvesTo env n k hr) hn
   | .un .neg a, h, rest, hn, F, hF => by
     have ha : Frag env a := h
     obtain ⟨f, rfl⟩ : ∃ f, F = f + 1 := ⟨F - 1, by simp [fuelOf] at hF; omega⟩
